@@ -38,7 +38,7 @@ ASSUMPTIONS = ["assembled quantities compared with |got-ref| <= 1e-8*max(1,|ref|
 QUICK_JOBS = 16
 MIN_MONITORS = {"*": {"D.vs_ref": 2, "F.vs_ref": 2, "F.symmetric": 2, "formalisms.D": 1, "formalisms.F": 1,
                       "formalisms.reconstruction": 1, "formalisms.mapped": 1, "factory.formalism": 1, "blocks.order": 1,
-                      "operated.vs_ref": 1, "mapped.vs_ref": 1, "DF.after_solve": 1}}
+                      "operated.vs_ref": 1, "mapped.vs_ref": 1, "DF.after_solve": 1, "dataset_reused.other_objects": 20}}
 RT = 1e-8
 
 
@@ -187,6 +187,18 @@ def run_case(ctx, i):
             if ok2:
                 ctx.check(relclose(DF[0], Dref[index], RT) and relclose(DF[1], Fref[np.ix_(index, index)], RT), "blocks.order",
                           perm=perm, formalism="w_tilde" if use_w else "mapping", got_D=DF[0], expected_D=Dref[index], **W)
+    # history: the SAME dataset object (its convolver / w-tilde tables are cached on it and were used above) now serves an
+    # inversion of OTHER linear objects: D and F are the normal equations of those objects
+    if i % 3 == 0:
+        objs2, desc2 = gen_aa.linear_objects(aa, rng, case, overrides=False)
+        B2, Dref2, Fref2, _ = reference(case, objs2, diag)
+        for use_w in (False, True):
+            st = aa.SettingsInversion(use_w_tilde=use_w, use_positive_only_solver=False, no_regularization_add_to_curvature_diag_value=diag)
+            ok, DF = ctx.guarded("dataset_reused.other_objects", lambda: (lambda v: (_np(v.data_vector).copy(), _np(v.curvature_matrix).copy()))(
+                aa.Inversion(dataset=case["ds"], linear_obj_list=objs2, settings=st)))
+            if ok:
+                ctx.check(relclose(DF[0], Dref2, RT) and relclose(DF[1], Fref2, RT), "dataset_reused.other_objects", formalism="w_tilde" if use_w else "mapping",
+                          second_objects=desc2, got_D=DF[0], expected_D=Dref2, **W)
     k = case["k"]
     cls = ["kernel:%s" % case["kernel_kind"], "kshape:%dx%d" % k.shape, "data:%s" % case["data_kind"], "nobj:%d" % len(objs),
            "objs:" + "+".join(d["kind"] for d in desc)]
